@@ -205,6 +205,8 @@ class DATADumpFile(DATADump):
 	def append_msg(self, msg):
 		# Generate raw bytes and write
 		msg_raw = self.dump_msg(msg)
+		# A preceding read may have left the (buffered) position anywhere
+		self.f.seek(0, 2)
 		self.f.write(msg_raw)
 
 	# Writes a list of messages at the end of the capture
